@@ -3,7 +3,7 @@ import random
 
 from exv.core import Report, run_cases
 from exv.scen import flushvec_of
-from exv.sysscen import child, gen_script, gen_race_script, gen_lag_script, gen_unconfirm_script
+from exv.sysscen import child, gen_script, gen_race_script, gen_lag_script, gen_unconfirm_script, gen_subscribe_race_script
 
 PID = 'C07'
 
@@ -53,6 +53,17 @@ def gen_cases(tier, seed, judge=('C07',), n=None, queries=False, longpark_in_qui
                           'script': gen_unconfirm_script(rng, nclients, nscripts), 'flushkind': 'none', 'flushvec': None,
                           'policy': rng.choice(('random', 'lazy', 'eager')), 'p': 0.3, 'latency': None, 'txindex': j % 2 == 0,
                           'prefetch': 100, 'n0': rng.choice((10, 16)), 'colls': 0, 'reorg_limit': 5})
+    if 'C07' in judge:
+        # a subscription being set up (its history read held) while a block touching the script is indexed and notified
+        for j in range(24 if tier == 'quick' else 300):
+            nclients, nscripts = rng.choice((1, 1, 2)), 6
+            cases.append({'seed': rng.randrange(1 << 30), 'nclients': nclients, 'nscripts': nscripts, 'judge': list(judge),
+                          # every other case has a single round: nothing is cached or subscribed when the block arrives
+                          'script': gen_subscribe_race_script(rng, nclients, nscripts, rounds=1 if j % 2 == 0 else None),
+                          'flushkind': 'none', 'flushvec': None,
+                          'policy': rng.choice(('random', 'lazy', 'eager')), 'p': 0.3, 'latency': None, 'txindex': j % 2 == 0,
+                          'prefetch': 100, 'n0': rng.choice((10, 14)), 'colls': 0, 'longpark': rng.choice((0.5, 0.7)), 'reorg_limit': 5,
+                          'family': 'subscribe-race', 'hold_requests_only': j % 2 == 0})
     if 'C10' in judge or 'C11' in judge:
         # reads in flight while blocks are undone: queries right before a chain change, read jobs held at their end
         for j in range(24 if tier == 'quick' else 300):
